@@ -17,6 +17,7 @@ CONSTANTS NF,         \* fibres are 1..NF, 0 = none
           AtomCap,    \* capacity of the atomic run queue (8 in fibre.c)
           MaxAtomMC,  \* state constraint only: undrained requests explored exhaustively
           MaxBody,    \* state constraint only: body calls per dispatch explored exhaustively
+          BackSteps,  \* the time argument may step back by up to this many ticks between two passes (0: monotone)
           AtomicOrder \* "arrival": requests are queued in order of arrival (the property);
                       \* "reverse": what the mutual recursion handle_atomic_runq <-> fibre_run produced before the fix
 
@@ -75,7 +76,7 @@ Pending(tq, t) == SelectSeq(tq, LAMBDA f : due[f] > t)
 
 (* ------------------------------ PassBegin(t) ------------------------------ *)
 PassBegin(t) ==
-  /\ mode = "idle" /\ t >= now /\ t <= MaxT
+  /\ mode = "idle" /\ t + BackSteps >= now /\ t <= MaxT
   /\ now' = t
   /\ LET q0 == <<runq, timerq, reasons>>
          q1 == Drain(q0)                                             \* 1. interrupt-context requests
@@ -126,7 +127,7 @@ BRunAtomic(f) == BodyStep /\ DoRunAtomic(f) /\ UNCHANGED <<due, toUsed>>
 
 (* fibre_timeout(d) *)
 BTimeout(d) ==
-  /\ BodyStep /\ ~toUsed
+  /\ BodyStep /\ (~toUsed \/ d <= now)      \* scope: at most one UNSATISFIED timeout per dispatch; satisfied ones may follow it
   /\ IF d <= now
        THEN res' = 1 /\ UNCHANGED <<timerq, due, toUsed>>
        ELSE /\ res' = 0
@@ -181,8 +182,9 @@ SelfIsLast == mode = "body" => current # Nil
 TimerSorted == \A i \in 1..(Len(timerq)-1) : due[timerq[i]] <= due[timerq[i+1]]
 (* a sleeper is never left behind: after a pass every pending due time is in the future *)
 NeverLate == mode \in {"body", "ending"} => \A f \in Range(timerq) : due[f] > now
-(* ... and never early: a fibre whose only reason is its timeout is not queued before its time *)
-NeverEarly == \A f \in Fibres : reasons[f] = {"timeout"} => due[f] <= now
+(* ... and never early: a timeout becomes a reason only in a pass whose time has reached it (an action property: the clock
+   may step back afterwards, while the fibre is still waiting its turn on the run queue) *)
+NeverEarly == [][\A f \in Fibres : ("timeout" \in reasons'[f] /\ "timeout" \notin reasons[f]) => due[f] <= now']_vars
 (* C03: the returned time never oversleeps *)
 NoOversleep ==
   retFresh =>
@@ -191,5 +193,5 @@ NoOversleep ==
                       /\ \A f \in Range(timerq) : ret # Unbounded /\ due[f] >= ret
     /\ (ret # now /\ ret # Unbounded) => ret > now
     /\ (ret = Unbounded) => timerq = <<>>
-Safety == TypeOK /\ NoDup /\ QueuedIffReason /\ SelfIsLast /\ TimerSorted /\ NeverLate /\ NeverEarly /\ NoOversleep
+Safety == TypeOK /\ NoDup /\ QueuedIffReason /\ SelfIsLast /\ TimerSorted /\ NeverLate /\ NoOversleep
 =============================================================================
